@@ -1700,6 +1700,46 @@ def _str_of_number(i, a, k):
     return Opaque('str()')
 
 
+def _pydash_find(i, a, k):
+    """pydash.find(collection, predicate): the first element satisfying the predicate, else None"""
+    used('pydash.find (first element satisfying the predicate, else None)')
+    coll, pred = a[0], a[1]
+    if isinstance(coll, (list, tuple)):
+        for x in coll:
+            if i.ctx.branch(ops.truthy(i.call(pred, [x]))):
+                return x
+        return None
+    if not isinstance(coll, Arr):
+        raise OutOfSubset('pydash.find over ' + kind_of(coll))
+    ctx = i.ctx
+    q = ops.fresh_qvar('pf')
+    n = z3num(coll.n)
+    ctx.pure += 1
+    try:
+        ctx.s.push()
+        ctx.s.add(z3.And(q >= 0, q < n))
+        try:
+            pq = z3bool(ops.truthy(i.call(pred, [coll.fn(Sym(q, 'int'))])))
+        finally:
+            ctx.s.pop()
+    finally:
+        ctx.pure -= 1
+    exists = mk_bool(z3.Exists([q], z3.And(q >= 0, q < n, pq)))
+    if ctx.branch(exists):
+        j = ctx.fresh_int('found')
+        ctx.s.add(j.t >= 0, j.t < n)
+        ctx.pure += 1
+        try:
+            pj = z3bool(ops.truthy(i.call(pred, [coll.fn(j)])))
+        finally:
+            ctx.pure -= 1
+        ctx.s.add(pj)
+        ctx.s.add(z3.ForAll([q], z3.Implies(z3.And(q >= 0, q < j.t), z3.Not(pq))))
+        return coll.fn(j)
+    ctx.s.add(z3.ForAll([q], z3.Implies(z3.And(q >= 0, q < n), z3.Not(pq))))
+    return None
+
+
 _EXT = None
 
 
@@ -1722,6 +1762,7 @@ def ext_call(name):
             'numpy.sqrt': lambda i, a, k: elementwise1(i, lambda x: np_sqrt_scalar(i, x), a[0]),
             'math.isnan': _math_isnan, 'math.floor': _math_floor, 'math.ceil': _math_ceil, 'math.sqrt': _math_sqrt,
             'math.fabs': _b_abs,
+            'pydash.find': _pydash_find,
             'decimal.Decimal': _decimal, 'copy.deepcopy': _copy_deepcopy, 'copy.copy': lambda i, a, k: snapshot(a[0]),
         }
     f = _EXT.get(name)
